@@ -64,14 +64,40 @@ except Exception as e:
 """
 
 
+KNOWN_WITNESS_RESIDUE_SRC = """
+import json, warnings
+import numpy as np, pandas as pd
+warnings.filterwarnings("ignore")
+import bt
+dts = pd.date_range("2020-01-01", periods=5)
+data = pd.DataFrame({"a": [100.0, 100.0, 100.0, np.nan, np.nan], "b": [50.0, 51, 52, 53, 54]}, index=dts)
+class Clips(bt.Algo):
+    def __call__(self, target):
+        if target.now == dts[0]:
+            target.allocate(10.0, child="a"); target.allocate(20.0, child="a")
+        elif target.now == dts[1]:
+            target.allocate(-30.0, child="a")          # 0.1 + 0.2 - 0.3 units: 5.6e-17 are left, below the library's own zero tolerance
+        return True
+s = bt.Strategy("s", [Clips(), bt.algos.RunAfterDate(dts[2]), bt.algos.SelectThese(["b"]), bt.algos.WeighEqually(), bt.algos.Rebalance()])
+t = bt.Backtest(s, data, integer_positions=False, initial_capital=1000.0, progress_bar=False)
+try:
+    t.run(); out = dict(still=False, completed=True)
+except Exception as e:
+    out = dict(still="price is nan" in str(e), raised=repr(e)[:200])
+print("JSON:" + json.dumps(out))
+"""
+
+KNOWN_WITNESSES = {"C10-nested-runonce-trades-on-synthetic-first-date": KNOWN_WITNESS_SRC, "C10-float-residue-of-a-closed-position-is-closed-again-at-a-missing-price": KNOWN_WITNESS_RESIDUE_SRC}
+
+
 def known_witness(f):
     """replays the recorded failing input of a known finding on the current tree (real code)"""
-    if f["id"] != "C10-nested-runonce-trades-on-synthetic-first-date":
+    if f["id"] not in KNOWN_WITNESSES:
         return None
     from pyvc.replay import Scratch
 
     with Scratch() as sc:
-        d = sc.run_json(KNOWN_WITNESS_SRC, timeout=120)
+        d = sc.run_json(KNOWN_WITNESSES[f["id"]], timeout=120)
     return bool(d.get("still"))
 
 
